@@ -20,5 +20,5 @@ Extraction "dist_model.ml"
   f64_chk_table f64_chk_mono f64_chk_roundtrip
   f64_to_Q f32_to_Q f64_cell q_stage_a f64_ninf_agrees word_table tail_tab chk_bracket mass_defect
   f64_bsearch f64_index_exact f64_unscale_exact_on f64_roundtrip_pred f64_me common_k dy_cells at_k word_tableZ tail_tabZ tail_dy chk_bracket_dy chk_roundtrip_q
-  check_C11_fails check_C11 check_C11_grid_fails check_C11_grid conv_tableZ c11_in_scope c11_k c11_j c11_zc c11_zb c11_qm c11_delta
+  check_C11_fails check_C11 check_C11_grid_fails check_C11_grid check_C11_red_fails c11_red conv_tableZ c11_in_scope c11_k c11_j c11_zc c11_zb c11_qm c11_delta
   Qle_bool Qred.
